@@ -27,7 +27,10 @@ THEOREMS = ["C09_fractions_in_unit_interval", "C09_fractions_sum_to_one", "C09_p
             "C09_matrix_solution_unique", "C09_scale_covariant", "C09_neutral_fraction_monotone_in_donor",
             "C09_densities_satisfy_balance", "C09_neutrality_shape", "C09_species_order_irrelevant",
             "C09_interpolant_through_knots", "C09_interpolant_is_blend", "C09_interpolated_fractions_conserve",
-            "C09_interpolated_densities_conserve"]
+            "C09_interpolated_densities_conserve",
+            "C09_matrix_solution_exists_unique", "C09_interpolated_profile_conserves", "C09_equilibrium_mapped_profile_conserves",
+            "C09_bilinear_through_knots", "C09_bilinear_is_blend", "C09_bilinear_fractions_conserve",
+            "C09_objective_scaling", "C09_cost_along_ray_partial"]
 
 KNOWN_KEY = "c09:lsq-illconditioned"
 
@@ -89,8 +92,16 @@ def plan_cases(ctx):
         elif rep in ("array1d", "mixed1d"):
             layout = ["all_R", "C", "alone", "all_S", "mixed", "C"][n_lay1 % 6]
             n_lay1 += 1
-        cases.append(impl.gen_case(rng, i, rep, stream, layout=layout, z=zs[i] if i < 18 else None,
+        cases.append(impl.gen_case(rng, i, rep, stream, layout=layout, z=None,
                                    force_donor=rep in ("eqmap", "interp1d", "interp2d") and i % 2 == 0, structure=structure))
+    # every Z of the property at least once per run, on the cases with the fewest points (the Coq cost of a point grows
+    # like Z^3); cases with five or more points keep Z <= 12
+    order = sorted(range(len(cases)), key=lambda q: (int(np.prod(cases[q]["shape"])), q))
+    for rank, q in enumerate(order[:18]):
+        cases[q]["Z"] = zs[rank]
+    for c in cases:
+        if int(np.prod(c["shape"])) >= 5 and c["Z"] > 12:
+            c["Z"] -= 8
     return cases
 
 
@@ -159,7 +170,7 @@ def run(ctx):
         "surfaces only, relative 1e-3",
     ]
     ctx.rebuild()
-    ctx.proofs("Properties.C09", THEOREMS, extra_modules=("Model.C09_Check", "Proofs.C09_Check", "Model.C09_Interp", "Proofs.C09_More", "Model.C09_Fill"))
+    ctx.proofs("Properties.C09", THEOREMS, extra_modules=("Model.C09_Check", "Proofs.C09_Check", "Model.C09_Interp", "Proofs.C09_More", "Proofs.C09_More2", "Model.C09_Fill"))
 
     # ---- translator tie: the matrix-filling statements of the CURRENT source, as data, against Model.entry ---------------
     import c09_fill
@@ -224,7 +235,7 @@ def run(ctx):
               ctx.violation("c09:exception:%s:%s" % (kind, case["rep"]),
                             "entry points raised %s / returned a non-finite value on a valid input (%s case, Z=%d, donor %s): %s"
                             % (kind, case["rep"], case["Z"], case["donor_mode"], str(ex)[:300]),
-                            {"case": {kk: vv for kk, vv in case.items() if kk not in ("points", "lerp", "eq_neut", "fv")},
+                            {"case": {kk: vv for kk, vv in case.items() if kk not in ("points", "lerp", "lerp2", "eq_neut", "fv")},
                              "traceback": traceback.format_exc()[-1500:],
                              "how": "harness/c09_impl.py run_case(case) rebuilds the inputs from case['sub'] (seeded) and calls the entry points"},
                             found=True)
@@ -296,6 +307,15 @@ def run(ctx):
                     outs.append("OLerp tol_interp %s %s %d%%nat (model_fractions %s) %s %s %s" % (
                         qlist(le["knots"]), qlit(le["x"]), le["k"], names[le["other"]], qlit(sa), qlit(sb), qlist(le["values"])))
                     dist["lerp_values"] += 1
+                for l2 in case.get("lerp2", []):
+                    if l2["k"] != k:
+                        continue
+                    ny_ = l2["ny"]
+                    outs.append("OLerp2 tol_interp %s %s %s %s %d%%nat %d%%nat (model_fractions %s) (model_fractions %s) (model_fractions %s) %s" % (
+                        qlist(l2["xs"]), qlist(l2["ys"]), qlit(l2["x"]), qlit(l2["y"]), l2["i"], l2["j"],
+                        names[(l2["i"] + 1) * ny_ + l2["j"]], names[l2["i"] * ny_ + l2["j"] + 1], names[(l2["i"] + 1) * ny_ + l2["j"] + 1],
+                        qlist(l2["values"])))
+                    dist["lerp_values"] += 1
                 n_outs += len(outs)
                 checks.append("check_point %s [%s]" % (names[k], ";\n    ".join(outs)))
                 ids.append((case, k))
@@ -364,6 +384,18 @@ def run(ctx):
                 if max(abs(F(v) - wv) for v, wv in zip(le["values"], want)) > F(max(tol, impl.base_tol(exo) + impl.TOL_INTERP)) * max(sa, sb):
                     fails.append(("value of an interpolated / equilibrium-mapped entry point differs from the balance solution",
                                   "%s: %s vs %s" % (le["src"], le["values"][:4], [float(v) for v in want[:4]])))
+        for l2 in case.get("lerp2", []):
+            if l2["k"] == k:
+                ny_ = l2["ny"]
+                corners = [case["points"][q] for q in (k, (l2["i"] + 1) * ny_ + l2["j"], k + 1, (l2["i"] + 1) * ny_ + l2["j"] + 1)]
+                exs = [impl.closed_form(q["ion"], q["rec"], q["cx"], q["n_e"], q["n_d"])[0] for q in corners]
+                u = (F(l2["x"]) - F(l2["xs"][l2["i"]])) / (F(l2["xs"][l2["i"] + 1]) - F(l2["xs"][l2["i"]]))
+                v = (F(l2["y"]) - F(l2["ys"][l2["j"]])) / (F(l2["ys"][l2["j"] + 1]) - F(l2["ys"][l2["j"]]))
+                want = [(1 - v) * ((1 - u) * a + u * b) + v * ((1 - u) * c + u * d) for a, b, c, d in zip(*exs)]
+                t2 = max(impl.base_tol(e) for e in exs) + impl.TOL_INTERP
+                if max(abs(F(g) - wv) for g, wv in zip(l2["values"], want)) > t2:
+                    fails.append(("value of an interpolated / equilibrium-mapped entry point differs from the balance solution",
+                                  "%s: %s vs %s" % (l2["src"], l2["values"][:4], [float(w_) for w_ in want[:4]])))
         # equilibrium-mapped neutrality densities on the knots' flux surfaces (cubic between knots)
         for en in case.get("eq_neut", []):
             if en["k"] == k:
@@ -374,7 +406,7 @@ def run(ctx):
                     fails.append(("equilibrium-mapped neutrality densities differ from the profile on the knot's flux surface",
                                   "equilibrium_map3d_match_plasma_neutrality: r=%r: %s vs %s" % (en["r"], en["values"][:4], ref[:4])))
         for claim, detail in fails:
-            search_fails.append({"claim": claim, "detail": detail, "case": {kk: vv for kk, vv in case.items() if kk not in ("points", "lerp", "eq_neut", "fv")},
+            search_fails.append({"claim": claim, "detail": detail, "case": {kk: vv for kk, vv in case.items() if kk not in ("points", "lerp", "lerp2", "eq_neut", "fv")},
                                  "point_index": k,
                                  "point": {"Z": len(pt["ion"]), "n_e": pt["n_e"], "n_e_hex": float(pt["n_e"]).hex(), "t_e": pt["t_e"],
                                            "n_d": pt["n_d"], "ion": pt["ion"], "rec": pt["rec"], "cx": pt["cx"], "n_el": pt["n_el"],
@@ -397,7 +429,7 @@ def run(ctx):
             ctx.violation("c09-diff:%s" % case["rep"],
                           "model and implementation differ at a point of a %s case (Z=%d); the executable property found no failing input"
                           % (case["rep"], case["Z"]),
-                          {"case": {kk: vv for kk, vv in case.items() if kk not in ("points", "lerp", "eq_neut", "fv")}, "point_index": k,
+                          {"case": {kk: vv for kk, vv in case.items() if kk not in ("points", "lerp", "lerp2", "eq_neut", "fv")}, "point_index": k,
                            "n_e": pt["n_e"], "t_e": pt["t_e"], "n_d": pt["n_d"],
                            "outputs": [{"src": o["src"], "values": o["values"]} for o in pt["outs"]],
                            "correspondence": "coq/Gen/C09/cases_*.v"}, found=False)
